@@ -158,7 +158,10 @@ def identifier_read(O):
             desc="parse_data_row: a `C` entry is recorded under the header name of the column it stands in - after bits(k, ..) "
                  "that is column k, not the number of entries so far")
 def clock_column(O):
-    R = rep()
+    clock_column_core(O, rep())
+
+
+def clock_column_core(O, R):
     import zlib
     for fixed, col in ((("Ident",), 0), (("DecInt", "Ident"), 1), (("Bits", "LParen", "DecInt", "Comma", "DecInt", "RParen", "Ident"), None)):
         m, fn, eng, ts, paths = C12._explore_fn(O, "::parse_data_row", 0, fixed, 4)
